@@ -67,6 +67,16 @@ CHECKS.update({
          "memory reachable only through unexported fields is not walked; sharing between two leaves inside one version (mirroring input sharing) is allowed",
          "DESIGN.md section 4 C02"),
 })
+CHECKS.update({
+ 'C11': ("runtime name/value oracle: the real env.Source on seeded reflect.StructOf types with the real process environment (noise accumulating across cases), expected names computed from the generator's word lists, result stacked by the real compose and compared with the reference stack; bad-literal probes",
+         "Tens of thousands of seeded config types (nested/pointer/embedded structs, dials tags in four casings on any level, dialsenv tags, initialisms and single-letter words, 33 string-castable leaf kinds incl. named scalar/slice/map types) with seeded subsets of variables set to canonical text of typed values, with and without prefix, in an environment that keeps every earlier case's variables plus near-miss names; the leaf set must be exactly the set of present variables with exactly the parsed values, and unparsable / just-out-of-range literals for every numeric width must be errors.",
+         "expected names come from word lists kept by the generator (never from caseconversion); ALL-CAPS tags, digit-terminated words and names in the open C19 finding are not generated",
+         "DESIGN.md section 4 C11"),
+ 'C12': ("runtime name/value/default oracle on both flag sources via NewSetWithArgs: names from word lists and verbatim tags, semantic default round trip, argv-subset reference layer with accumulation model, narrowing probes",
+         "For sources/flag and sources/pflag, default and custom NameConfig: every leaf must have a flag with the expected name; the advertised defaults fed back to a second set built from a zero template must reproduce the template's values; exactly the flags present in a random argv (any subset, repeats, order, -x v / --x=v / bare bool) set their leaves to the parsed values, repeated slice/set/map flags accumulate per the reference model, and out-of-range values for every width narrower than the carrier type are errors.",
+         "pflag's own StringSlice flag is judged with CSV text and its bracketed default text (third-party format); named slice/map types get no flag and are not generated",
+         "DESIGN.md section 4 C12"),
+})
 NOT_YET = "check not yet built in this session (planned in DESIGN.md section 4; the technique applies)"
 
 def main():
